@@ -65,7 +65,7 @@ Op2(op, p, q)    == [op |-> op, p |-> p, q |-> q, c |-> Empty, f |-> <<>>]
 OpF(p, c, f)     == [op |-> "oopen", p |-> p, q |-> <<>>, c |-> c, f |-> f]
 AllFlags == [1..6 -> BOOLEAN]
 OpenTargets == {<<"a">>, <<"c">>, <<"b", "a">>, <<"a", "b">>, <<"b", "b", "c", "">>}
-Unary  == {"read", "create_dir", "create_dir_all", "remove_dir_all", "remove_file", "remove_dir",
+Unary  == {"read", "read_string", "fread_string", "create_dir", "create_dir_all", "remove_dir_all", "remove_file", "remove_dir",
            "exists", "metadata", "read_dir"}
 Writes == {"write"}
 
@@ -73,7 +73,7 @@ Writes == {"write"}
 OpensFifo(t, segs) == LET w == Resolve(t, segs, TRUE) IN w.r = "node" /\ t[w.p].k = "p"
 Blocks(t, o) ==
     \/ Escapes(t, o.p) \/ (o.op \in {"copy", "copy_lim", "fcopy", "rename"} /\ Escapes(t, o.q))      \* would act outside the private root
-    \/ o.op \in Writes \cup {"oopen", "write_lim", "read", "copy", "copy_lim", "fcopy", "fcopy_x", "remove_dir_all", "read_dir"} /\ OpensFifo(t, o.p)
+    \/ o.op \in Writes \cup {"oopen", "write_lim", "read", "read_string", "fread_string", "copy", "copy_lim", "fcopy", "fcopy_x", "remove_dir_all", "read_dir"} /\ OpensFifo(t, o.p)
     \/ o.op \in {"copy", "copy_lim", "fcopy"} /\ OpensFifo(t, o.q)
 Ops(t) == {o \in {Op1(op, p) : op \in Unary, p \in Targets}
                  \cup {OpC(op, p, c) : op \in Writes, p \in Targets, c \in {S, M, Empty}}
